@@ -1596,7 +1596,7 @@ def pm_busy():
     out = []
     Y = step("yield")
     for how in ("delete", "close", "none"):
-        for rep in range(3):
+        for rep in range(6 if how != "none" else 2):
             b = Sb("pmbusy-%s-%d" % (how, rep), [peer(gates=["GetCapabilities#2"])])
             b.start()
             ci = b.connect()
